@@ -25,7 +25,7 @@ def kf_match(kf, raw):
     return True
 
 
-def validate_cases(rep, wd, module, cfg, per_case_lines, label="trace", max_rejects=12, constants=None):
+def validate_cases(rep, wd, module, cfg, per_case_lines, label="trace", max_rejects=5, constants=None):
     """per_case_lines: dict case_id -> list of (line, raw).  Validates the concatenation with the trace
     spec; every rejected case is cut out and the rest re-validated, so the whole recording is examined.
     Returns dict case_id -> (line_index_in_case, line, raw) for rejected cases."""
